@@ -22,13 +22,15 @@ pub trait Cigar {
 
     /// Calculates the alignment span over the reference sequence.
     fn alignment_span(&self) -> io::Result<usize> {
-        let mut span = 0;
+        let mut span: usize = 0;
 
         for result in self.iter() {
             let op = result?;
 
             if op.kind().consumes_reference() {
-                span += op.len();
+                span = span.checked_add(op.len()).ok_or_else(|| {
+                    io::Error::new(io::ErrorKind::InvalidData, "alignment span overflow")
+                })?;
             }
         }
 
@@ -37,13 +39,15 @@ pub trait Cigar {
 
     /// Calculates the read length.
     fn read_length(&self) -> io::Result<usize> {
-        let mut length = 0;
+        let mut length: usize = 0;
 
         for result in self.iter() {
             let op = result?;
 
             if op.kind().consumes_read() {
-                length += op.len();
+                length = length.checked_add(op.len()).ok_or_else(|| {
+                    io::Error::new(io::ErrorKind::InvalidData, "read length overflow")
+                })?;
             }
         }
 
@@ -118,6 +122,24 @@ mod tests {
         assert_eq!(cigar.alignment_span()?, 40);
 
         Ok(())
+    }
+
+    #[test]
+    fn test_alignment_span_and_read_length_with_overflow() {
+        let cigar: &dyn Cigar = &T(vec![
+            Op::new(Kind::Match, usize::MAX),
+            Op::new(Kind::Match, 1),
+        ]);
+
+        assert!(matches!(
+            cigar.alignment_span(),
+            Err(e) if e.kind() == io::ErrorKind::InvalidData
+        ));
+
+        assert!(matches!(
+            cigar.read_length(),
+            Err(e) if e.kind() == io::ErrorKind::InvalidData
+        ));
     }
 
     #[test]
